@@ -197,7 +197,9 @@ def judge(ck, desc, cls, res, fluid, t, pp, sched, m_i, m_f):
     """The offline oracle over one logged simulate event (driver runs and pytest-workload runs)."""
     nt, nx = pp.shape
     R = m_i - float(np.min(m_f))
-    tol = 1e-9 * R + 1e-11 * abs(m_i)
+    # (the rounding floor of a tridiagonal solve grows with the node count: with NO drawdown (R = 0) a 1500-node run
+    #  showed 6.6e-13 of noise against the old floor 1e-11 |m_i| in the final sweep)
+    tol = 1e-9 * R + 1e-11 * abs(m_i) * max(1.0, pp.shape[1] / 100.0)
     if not np.all(np.isfinite(pp)):
         ck.violation("finite-field", {"n_bad": int((~np.isfinite(pp)).sum())}, desc)
         return False, None
